@@ -13,7 +13,10 @@ Local Open Scope list_scope.
    constructed for that one argument (operator% declares it locally), so the text of an argument is what
    a FRESH stringstream (dec, no boolalpha/showbase, precision 6, fill ' ', width 0) produces for it and
    is a function of that argument alone.  The kinds of argument of the model:
-     AStr s        std::string / const char*: written byte for byte
+     AStr s        std::string (const or non-const lvalue, temporary), const char*, char: written byte for byte.
+                   Arguments are VALUES: operator% / args(...) only read them (std::forward into operator<<), the
+                   caller's variable is never modified, so the same variable may feed several placeholders and
+                   later formatters (the driver passes every value category and checks the variables afterwards)
      AInt z        long
      ADbl z        double with integer value z, |z| < 10^6 (precision 6 prints all digits, no exponent)
      ABool b       bool (no boolalpha on a fresh stream: 1 / 0)
